@@ -34,6 +34,11 @@ type c13Case struct {
 	DrvF    []string `json:"driver_failed_when"`
 	Cmds    []string `json:"cmds"`
 	Outs    []string `json:"outs"`
+	// an earlier operation on the same driver (its own operation-level list), then the measured one
+	PreOpF  []string `json:"pre_op_failed_when,omitempty"`
+	PreCmds []string `json:"pre_cmds,omitempty"`
+	PreOuts []string `json:"pre_outs,omitempty"`
+	PreStop bool     `json:"pre_stop,omitempty"`
 }
 
 func genC13(r *sim.Rng) *c13Case {
@@ -86,6 +91,26 @@ func genC13(r *sim.Rng) *c13Case {
 		}
 		c.Outs = append(c.Outs, strings.Join(sb, "\n"))
 	}
+	// history: half of the cases run an earlier operation on the same driver first, with an
+	// operation-level list of its own (and sometimes stop-on-failed); nothing of it may carry over
+	if r.Chance(1, 2) {
+		np := 1 + r.Intn(3)
+		for i := 0; i < np; i++ {
+			c.PreCmds = append(c.PreCmds, fmt.Sprintf("show pre%d", r.Intn(50)))
+			o := fmt.Sprintf("pre line %d ok", i)
+			if r.Chance(1, 3) {
+				o += " " + r.Pick(c13FailPool) + " tail"
+			}
+			c.PreOuts = append(c.PreOuts, o)
+		}
+		if r.Chance(3, 4) {
+			no := 1 + r.Intn(2)
+			for i := 0; i < no; i++ {
+				c.PreOpF = append(c.PreOpF, r.Pick(c13FailPool))
+			}
+		}
+		c.PreStop = r.Chance(1, 3)
+	}
 	return c
 }
 
@@ -100,6 +125,9 @@ func runC13(seed uint64, n int, tier string) {
 
 func runC13Case(id string, c *c13Case) {
 	dev := &sim.CLIDevice{Prompt: []byte("router#"), Banner: sim.Atoms([]byte("router#"))}
+	for _, o := range c.PreOuts {
+		dev.Outputs = append(dev.Outputs, sim.Atoms([]byte(o)))
+	}
 	for _, o := range c.Outs {
 		dev.Outputs = append(dev.Outputs, sim.Atoms([]byte(strings.ReplaceAll(o, "\n", "\r\n"))))
 	}
@@ -127,6 +155,27 @@ func runC13Case(id string, c *c13Case) {
 	}
 	if len(c.OpF) > 0 {
 		opts = append(opts, opoptions.WithFailedWhenContains(c.OpF))
+	}
+	preSent := 0
+	if len(c.PreCmds) > 0 {
+		var popts []util.Option
+		if c.PreStop {
+			popts = append(popts, opoptions.WithStopOnFailed())
+		}
+		if len(c.PreOpF) > 0 {
+			popts = append(popts, opoptions.WithFailedWhenContains(c.PreOpF))
+		}
+		if _, perr := d.SendCommands(c.PreCmds, popts...); perr != nil {
+			cs.Obs = "pre-error " + errClass(perr)
+			cs.Oracle = "earlier operation failed: " + perr.Error()
+			emit(cs)
+			return
+		}
+		preSent = len(dev.NonEmptyLines())
+		// commands the earlier operation did not send (stop-on-failed) leave their outputs
+		// queued in the device: drop them so the measured operation starts aligned
+		dev.DropOutputs(len(c.PreCmds) - preSent)
+		cs.Kind += "+pre"
 	}
 	var m *response.MultiResponse
 	switch c.Variant {
@@ -176,7 +225,7 @@ func runC13Case(id string, c *c13Case) {
 			failedInputs = append(failedInputs, []byte(oe.Input))
 		}
 	}
-	sent := dev.NonEmptyLines()
+	sent := dev.NonEmptyLines()[preSent:]
 	cs.Obs = fmt.Sprintf("ok %d %s %s %s %s %s %s", len(m.Responses), hxList(matched),
 		hxList(failedInputs), hxList(sent), hxList(results), hx([]byte(m.JoinedResult())),
 		b2i(m.Failed != nil))
